@@ -26,6 +26,10 @@ def plan(tier, seed):
             shards.append({"kind": "exh", "type": t, "length": 2, "part": p, "parts": parts, "hashseed": hs[(ti + p) % len(hs)]} if q and p == 0 else {"kind": "exh", "type": t, "length": 3 if q else 4, "part": p, "parts": parts, "stride": 3 if q else 8, "hashseed": hs[(ti + p) % len(hs)]})
     for i in range(6 if q else 16):
         shards.append({"kind": "rand", "n": 120 if q else 6000, "maxlen": 60, "hashseed": hs[i % len(hs)]})
+    if not q:
+        # thorough only: the repository's own tests as a workload under the receiver-immutability hook (their verdicts are ignored)
+        shards.insert(0, {"kind": "suite", "tests": ["tests/basilisp/core", "tests/basilisp/vector_test.py", "tests/basilisp/map_test.py", "tests/basilisp/set_test.py", "tests/basilisp/list_test.py",
+                                                     "tests/basilisp/queue_test.py", "tests/basilisp/seq_test.py", "tests/basilisp/runtime_test.py", "tests/basilisp/reader_test.py"], "jobs": 5, "timeout": 3200})
     return {
         "level": "exploration",
         "exhaustive": False,
@@ -40,7 +44,50 @@ def plan(tier, seed):
     }
 
 
+def suite_workload(spec, out):
+    """the repository's own tests run with vf.pytest_c04 loaded in every pytest process: every method call on a persistent collection made by
+    the tests and by the compiler while they run is checked for receiver immutability"""
+    import glob
+    import json
+    import os
+    import shutil
+    import subprocess
+    import sys
+    import tempfile
+
+    from vf import build
+
+    repo = os.environ.get("VERIF_REPO", "/repo")
+    outdir = tempfile.mkdtemp(prefix="c04suite-", dir=os.environ.get("VERIF_SCRATCH") or None)
+    env = dict(os.environ, VERIF_C04_OUT=outdir)
+    cmd = [sys.executable, "-m", "pytest", "-q", "-p", "no:cacheprovider", "-p", "vf.pytest_c04", "--timeout=900", "-n", str(spec.get("jobs", 4))] + spec["tests"]
+    try:
+        p = subprocess.run(cmd, cwd=repo, env=env, capture_output=True, text=True, timeout=spec.get("timeout", 3000), preexec_fn=build.die_with_parent)
+        tail = (p.stdout or "")[-300:]
+        calls = nproc = 0
+        for fn in glob.glob(os.path.join(outdir, "*.jsonl")):
+            for line in open(fn):
+                rec = json.loads(line)
+                if rec["t"] == "stats":
+                    nproc += 1
+                    calls += rec["calls"]
+                else:
+                    out.violation(f"C04/{rec['cls']}/hook/receiver-mutated/{rec['method']}", {"during": "repository test " + str(rec["test"]), "method": rec["cls"] + "." + rec["method"], "args": rec["args"]}, {"kind": "suite", "test": rec["test"]})
+        out.count("suite_hook_calls", calls)
+        out.ev(None, n=max(1, calls // 1000))
+        out.count("suite_pytest_processes_reporting", nproc)
+        out.sample({"suite_tests": spec["tests"], "pytest_tail": tail, "hook_calls": calls})
+        if calls == 0:
+            out.incon("the repository suite workload reached no hooked method: " + tail[-200:], {"kind": "suite"})
+    except subprocess.TimeoutExpired:
+        out.incon("the repository suite workload hit its wall-clock bound", {"kind": "suite"})
+    finally:
+        shutil.rmtree(outdir, ignore_errors=True)
+
+
 def worker(spec, out):
+    if spec.get("kind") == "suite":
+        return suite_workload(spec, out)
     from vf import boot
 
     b = boot.init()
@@ -59,41 +106,10 @@ def worker(spec, out):
     mk_queue = b.eval_str("(fn [xs] (into (queue) xs))", ns=ns)
     pr = C("pr-str")
 
-    # ---- invariant hook: receivers never change --------------------------------------------------------------------
-    hook = {"calls": 0, "viol": []}
+    # ---- invariant hook: receivers never change (vf/c04hook.py) ------------------------------------------------------
+    from vf import c04hook
 
-    def snapshot(o):
-        try:
-            if isinstance(o, llist.PersistentList):  # pyrsistent plist: len() is O(n); its cells are immutable
-                return (id(o._inner), id(o._meta))
-            n = len(o._inner)
-            if n > 12:
-                return (id(o._inner), id(o._meta), n)
-            return (id(o._inner), id(o._meta), tuple(o._inner.items()) if isinstance(o, (lmap.PersistentMap, lset.PersistentSet)) else tuple(o._inner))
-        except Exception:
-            return None
-
-    def wrap(cls, name, fn):
-        def w(self, *a, **k):
-            before = snapshot(self)
-            try:
-                return fn(self, *a, **k)
-            finally:
-                hook["calls"] += 1
-                if before is not None and snapshot(self) != before:
-                    hook["viol"].append((cls.__name__, name, repr(a)[:80]))
-
-        w.__name__ = getattr(fn, "__name__", name)
-        w.__wrapped__ = fn
-        return w
-
-    for cls in (lvec.PersistentVector, lmap.PersistentMap, lset.PersistentSet, llist.PersistentList, lqueue.PersistentQueue):
-        for name, fn in list(vars(cls).items()):
-            if callable(fn) and not isinstance(fn, (staticmethod, classmethod, property, type)) and name not in ("__init__", "__new__", "__class_getitem__", "__init_subclass__", "__hash__", "__iter__", "__len__", "__eq__", "__getitem__", "__contains__", "__bool__", "__call__"):
-                try:
-                    setattr(cls, name, wrap(cls, name, fn))
-                except (AttributeError, TypeError):
-                    pass
+    hook = c04hook.install()
 
     # ---- model -------------------------------------------------------------------------------------------------------
     def mk(k):
